@@ -203,13 +203,15 @@ PROPS = {
                                                       "A-RE: re.compile / match for anchored fixed-length byte patterns, decided byte by byte (spec/regex_ext.py)",
                                                       "assumed contracts (file / JSON handling not verified): load_pubkeys, compute_pubkeys_output, HSMCertificate.from_jsonfile "
                                                       "(returns a version-1 certificate as _parse leaves it, or raises), admin.misc.head",
-                                                      "scope: the LEDGER verify command, the powHSM message layout / exact-length check and the public-keys hash; 'finishes without "
+                                                      "scope: both verify commands, the powHSM message layout / exact-length check and the public-keys hash; 'finishes without "
                                                       "error only when' is proved as: every normal return satisfies the conjunction (errors are any exception); the converse "
                                                       "('every other situation ends in an error') is the same statement; that genuine inputs DO pass is not proved",
-                                                      "the SGX verify command: see the evidence of the run (covered only if its contract is listed under functions_under_contract)"],
+                                                      "SGX command: 'the certificate chain is valid' rests on an ASSUMED contract of the version-2 validate_and_get_values (the "
+                                                      "version-2 walk is not verified, see C07): the command is proved to insist on that verdict, on the root validating itself, "
+                                                      "and on everything else; get_root_of_trust (file / network) is an assumed contract"],
                 trusted_base=["spec/certs.py", "spec/pubkeys_ext.py", "spec/regex_ext.py", "spec/cstruct.py", "spec/hash_ext.py"],
-                explanation="normal return of do_verify_attestation implies: both chains valid for the chosen root (C06's specification), documented headers, exact powHSM length, "
-                            "keys hash = SHA-256 of the operator's keys in path order, UI key = operator's key; printed values are slices at the documented offsets"),
+                explanation="normal return of do_verify_attestation implies: both chains valid for the chosen root (C06's specification; SGX: assumed verdict + self-validating root), documented headers, "
+                            "exact powHSM length, keys hash = SHA-256 of the operator's keys in path order, UI key = operator's key; the lines handed to head() hold the slices at the documented offsets"),
     "C13": dict(level="proof", assumptions=COMMON + [A_FW], trusted_base=TB + ["spec/firmware.py"],
                 explanation="reply fields are equated with the answers recorded in the ghost log, selectors from the firmware headers"),
 }
